@@ -89,6 +89,8 @@ def op_tok(op) -> str:
 def line_of(d) -> str:
     names = ",".join(hx(x) for x in d["names"]) if d["names"] else "-"
     it = f" iter={d['iter']}" if d.get("iter") is not None else ""
+    if d.get("copy") is not None:
+        it += f" copy={d['copy']}"
     return (f"cls=dag n={d['n']} asrt={d['asrt']} names={names}{it} ops= "
             + " ".join(op_tok(o) for o in d["ops"])).rstrip() + ("" if d["ops"] else "")
 
@@ -404,12 +406,63 @@ def _real_iter(d, asrt) -> str:
     return "iter " + (",".join(f"{p}>{c}" for p, c in pairs) if pairs else "-")
 
 
+def _real_copy(d, asrt) -> str:
+    """replay the history on fresh real objects, then `node.copy()` - first of node d["copy"], then of every node no copy
+    has covered yet (one copy per weakly connected component) - and print the cells of the duplicates: the duplicate of
+    node i is written i+n, as in the model's mirrored store (tie of DagStore.deepCopy, C07Dag.*).  The originals must
+    be what they were."""
+    import bigtree.node.dagnode as dn
+    old = dn.ASSERTIONS
+    dn.ASSERTIONS = asrt
+    timer = _arm(HANG_SECONDS)
+    try:
+        w = World(d["names"])
+        for op in d["ops"]:
+            w.apply(op)
+        reg = list(w.ctl.reg)
+        n = len(reg)
+        for i, x in enumerate(reg):
+            x._vid = i                       # private: copied along, never part of an observation
+        before = [([id(p) for p in x.parents], [id(c) for c in x.children]) for x in reg]
+        cells = {}
+        for start in [d["copy"]] + list(range(n)):
+            if start in cells:
+                continue
+            seen, todo = {}, [reg[start].copy()]
+            while todo:
+                y = todo.pop()
+                if id(y) in seen:
+                    continue
+                seen[id(y)] = y
+                todo += list(y.parents) + list(y.children)
+            for y in seen.values():
+                if any(y is x for x in reg):
+                    return "copy shares-objects"
+                if y._vid in cells:
+                    return "copy covers-a-node-twice"
+                cells[y._vid] = (",".join(str(p._vid + n) for p in y.parents) or "-",
+                                 ",".join(str(c._vid + n) for c in y.children) or "-")
+        if before != [([id(p) for p in x.parents], [id(c) for c in x.children]) for x in reg]:
+            return "copy changed-the-original"
+    except _Timeout:
+        return "copy hang"
+    except Exception as e:  # noqa: BLE001
+        return "copy crash:" + type(e).__name__
+    finally:
+        _disarm(timer)
+        dn.ASSERTIONS = old
+    return "copy " + " ".join(f"{i + n}:{cells[i][0]}/{cells[i][1]}" for i in range(n) if i in cells)
+
+
 def impl_history(d, assertions=None) -> str:
     tr = run_real(d, assertions)
     out = " ; ".join(f"{o} {_fmt_snap(s)}" for o, s, _ in tr[1:])
     if d.get("iter") is not None:
         asrt = bool(d["asrt"]) if assertions is None else bool(assertions)
         out += " ; " + _real_iter(d, asrt)
+    if d.get("copy") is not None:
+        asrt = bool(d["asrt"]) if assertions is None else bool(assertions)
+        out += " ; " + _real_copy(d, asrt)
     return out
 
 
@@ -1083,7 +1136,12 @@ def with_iter(d, t):
     """ask for dag_iterator of the final state too (it keys its visited set by name: distinct names only); the start
     node is a function of the case itself, so the random stream of the generator is left as it was"""
     if d["asrt"] == 1 and d["n"] >= 1 and _distinct_names(d):
-        return dict(d, iter=zlib.crc32(line_of(d).encode()) % d["n"]), tuple(t) + ("iter",)
+        k = zlib.crc32(line_of(d).encode())
+        d2 = dict(d, iter=k % d["n"])
+        if (k >> 8) % 3 == 0 and not any(o[0] == "N" for o in d["ops"]):
+            # a third of them also copy the final state (DAGNode.copy of one node per component)
+            return dict(d2, copy=(k >> 12) % d["n"]), tuple(t) + ("iter", "copy")
+        return d2, tuple(t) + ("iter",)
     return d, t
 
 
